@@ -127,6 +127,13 @@ impl Thread {
             }
         }
 
+        // Every thread is inside at least one call-stack element
+        if thread.callstack.is_empty() {
+            return Err(StoryError::BadJson(
+                "Thread without call stack elements".to_owned(),
+            ));
+        }
+
         if let Some(prev_content_obj_path) =
             j_obj.get("previousContentObject").and_then(|p| p.as_str())
         {
@@ -440,6 +447,11 @@ impl CallStack {
             let j_thread_obj = json_read::as_object(j_thread_tok)?;
             let thread = Thread::from_json(main_content_container, j_thread_obj)?;
             self.threads.push(thread);
+        }
+
+        // There is always a current thread
+        if self.threads.is_empty() {
+            return Err(StoryError::BadJson("Call stack without threads".to_owned()));
         }
 
         self.thread_counter = json_read::as_usize(json_read::get(j_obj, "threadCounter")?)?;
